@@ -212,33 +212,45 @@ class StdFileSystem(FileSystem):
 
 
 class MemoryFile(File):
-  """Memory file."""
+  """Memory file: a handle with its own position over a (shared) buffer."""
 
-  def __init__(self, buffer: io.IOBase):
+  def __init__(self, buffer: io.IOBase, pos: int = 0):
     super().__init__()
     self._buffer = buffer
-    self._pos = 0
+    self._pos = pos
 
   def read(self, size: Optional[int] = None) -> Union[str, bytes]:
-    return self._buffer.read(size)
+    self._buffer.seek(self._pos)
+    content = self._buffer.read(size)
+    self._pos = self._buffer.tell()
+    return content
 
   def readline(self) -> Union[str, bytes]:
-    return self._buffer.readline()
+    self._buffer.seek(self._pos)
+    content = self._buffer.readline()
+    self._pos = self._buffer.tell()
+    return content
 
   def write(self, content: Union[str, bytes]) -> None:
+    self._buffer.seek(self._pos)
     self._buffer.write(content)
+    self._pos = self._buffer.tell()
 
   def seek(self, offset: int, whence: Literal[0, 1, 2] = 0) -> int:
-    return self._buffer.seek(offset, whence)
+    if whence == 1:
+      # Relative to the position of this handle.
+      self._buffer.seek(self._pos)
+    self._pos = self._buffer.seek(offset, whence)
+    return self._pos
 
   def tell(self) -> int:
-    return self._buffer.tell()
+    return self._pos
 
   def flush(self) -> None:
     pass
 
   def close(self) -> None:
-    self.seek(0)
+    self._pos = 0
 
 
 class MemoryFileSystem(FileSystem):
@@ -285,6 +297,9 @@ class MemoryFileSystem(FileSystem):
 
     if file is None:
       raise FileNotFoundError(path)
+    # Every `open` returns its own handle (position) over the file's buffer, so
+    # that a handle left open elsewhere cannot move where this one reads/writes.
+    file = MemoryFile(file._buffer)  # pylint: disable=protected-access
     if 'a' in mode:
       file.seek(0, 2)
     return file
